@@ -44,8 +44,8 @@ theorem extractTargetAndArgs_ok (t : List Char) : ∃ r, extractTargetAndArgs t 
     exact ⟨_, rfl⟩
 
 /-- `parse_passage_params` answers a parameter list or one of its four diagnostics, never an internal error -/
-theorem parseParamsGo_ok (parts : List (List Char)) (seen : Bool) (names : List (List Char)) (acc : List Param) :
-    ∃ r, parseParamsGo parts seen names acc = .ok r := by
+theorem parseParamsGo_ok (ex : ExprOracle) (parts : List (List Char)) (seen : Bool) (names : List (List Char)) (acc : List Param) :
+    ∃ r, parseParamsGo ex parts seen names acc = .ok r := by
   induction parts generalizing seen names acc with
   | nil => exact ⟨_, rfl⟩
   | cons p rest ih =>
@@ -62,11 +62,11 @@ theorem parseParamsGo_ok (parts : List (List Char)) (seen : Bool) (names : List 
         repeat' split
         all_goals first | exact ⟨_, rfl⟩ | exact ih _ _ _
 
-theorem parsePassageParams_ok (s : List Char) : ∃ r, parsePassageParams s = .ok r := by
+theorem parsePassageParams_ok (ex : ExprOracle) (s : List Char) : ∃ r, parsePassageParams ex s = .ok r := by
   unfold parsePassageParams
   split
   · exact ⟨_, rfl⟩
-  · exact parseParamsGo_ok _ _ _ _
+  · exact parseParamsGo_ok _ _ _ _ _
 
 /-- `validate_passage_name` accepts or raises its SyntaxError — whatever Unicode says about the characters:
 `name[0]` is only read for a non-empty name, and the suggestion falls back to the generic text when the search
